@@ -178,6 +178,9 @@ func (r *remoteKeySet) keysFromRemote(ctx context.Context) ([]jose.JSONWebKey, e
 		// This goroutine has exclusive ownership over the current inflight
 		// request. It releases the resource by nil'ing the inflight field
 		// once the goroutine is done.
+		// The download is shared by every caller that waits on it, so it must not
+		// die with the context of the caller that happened to start it.
+		ctx := context.WithoutCancel(ctx)
 		go r.updateKeys(ctx)
 	}
 	inflight := r.inflight
